@@ -76,7 +76,8 @@ def directed_cases():
     case("delto-pending-ci", small_adds(3) + [["setci", 5], ["timer"], ["setci", 6]], ["delto", 1], [["timer"]], all_t=False)
     # a stale <journal>.tmp left by a head drop killed at / before its rename: every later op is
     # indifferent to it, reopen ignores it, the next head drop removes it first (JR) - and is killed again
-    for kk, tt in ((1, 0), (2, 0), (2, 23), (4, 11), (0.999, 0)):
+    # (1, 0) = killed after JC before JW: an EMPTY <journal>.tmp; (1, 23) = torn header write of the tmp file
+    for kk, tt in ((1, 0), (2, 0), (1, 23), (4, 11), (0.999, 0)):
         stale = small_adds(5) + [["crashat", ["delto", 2], kk, tt]]
         case("stale-k%s-t%d-delto" % (kk, tt), stale, ["delto", 1], all_t=(kk == 0.999))
     stale = small_adds(5) + [["crashat", ["delto", 2], 0.999, 0]]
@@ -310,6 +311,93 @@ class Walker(object):
                              % (n, ops, lib.short_ents(r2.entries()), lib.short_ents(ref)), dict(inp, then=ops))
                 return
 
+    # -- creation of the journal file as an examined operation ---------------------------------------
+    def creation(self, with_meta):
+        """kill points of FileJournal(path) on a missing / zero-length journal file: before FC, after it
+        (zero-length file), inside the header write, before and after R1024 - each really killed, reopened
+        with the real class (must be an empty, usable journal that still reads the stored meta data),
+        compared with the model (`crashnew`, or `load` when a .meta exists); plus the fs-level images"""
+        jm, cov, model, model2 = self.jm, self.cov, self.model, self.model2
+        meta, ci, tv = lib.make_meta(jm, self.killdir) if with_meta else (None, 1, (0, None))
+        for start in ("missing", "zero"):
+            snap = ({"missing": None, "zero": b""}[start], meta, None, None)
+            base = {"kind": "create", "start": start, "meta": bool(with_meta)}
+            lib.write_snapshot(self.path, snap)
+            fsimgs = []
+            try:
+                r = lib.Real(jm, self.path, fs_hook=lambda n, when, prim: fsimgs.append((n, when, prim, lib.snapshot(self.path))))
+            except Exception:                            # noqa  e.g. ValueError on a zero-length file (D74)
+                lib.remove_files(self.path)
+                m, obs = lib.judge_creation_image(jm, self.scratch, snap, ci, tv)
+                cov.hit("points.create")
+                cov.hit("points.create_zero_length")
+                if m is not None:
+                    self.violate(m[0], "FileJournal(path) on a %s journal file%s: %s"
+                                 % (start, " with a stored .meta" if with_meta else "", m[1]), dict(base), kind="create")
+                if model is not None:
+                    self.disagree("creation on a zero-length file: real raises", model.ask("new " + model.ver)[:120], "exception", dict(base))
+                continue
+            prims, final = r.open_prims, lib.snapshot(self.path)
+            r.abandon()
+            lib.remove_files(self.path)
+            self.out["cases"] += 1
+            cov.hit("pairs.create")
+            np_ = len(prims)
+            for k, t in lib.creation_points(prims):
+                inp = dict(base, k=k, t=t)
+                cov.hit("points.create")
+                self.points.add(lib.ops_hash(["create", start, with_meta, k, t]))
+                img = lib.apply_prims(snap, prims, k, t)
+                if img[0] is not None and len(img[0]) == 0:
+                    cov.hit("points.create_zero_length")
+                elif img[0] is not None and len(img[0]) < lib.FIRST:
+                    cov.hit("points.create_torn_header")
+                if with_meta:
+                    cov.hit("points.create_with_meta")
+                if k == np_ and img != final:
+                    self.disagree("interception: the recorded primitives do not reproduce the files after the creation",
+                                  "-", lib.prims_str(prims, jm), inp)
+                imgB, killed, done, exc = lib.kill_creation(jm, self.killpath, snap, kill=(k, t))
+                cov.hit("kills_executed")
+                if exc is not None or killed != (k < np_) or imgB != img:
+                    self.disagree("kill: files after a real kill of the creation differ from snapshot + recorded primitives", "-",
+                                  "killed=%s exc=%r done=%s" % (killed, exc, lib.prims_str(done, jm)), inp)
+                m, obs = lib.judge_creation_image(jm, self.scratch, img, ci, tv)
+                if m is not None:
+                    self.violate(m[0], "FileJournal(path) killed at creation primitive %d of %d (+%d bytes), %s journal file%s: %s"
+                                 % (k, np_, t, start, " with a stored .meta" if with_meta else "", m[1]), inp, kind="create")
+                # model
+                hexs = "-" if not img[0] else img[0].hex()
+                if not with_meta and model is not None:
+                    cov.hit("create.crashnew_compared")
+                    reply = model.ask("crashnew %s %d %d" % (model.ver, k, t))
+                    if "summary" in obs:
+                        mine = "ok np=%d %s | len=%d cur=%d ci=%d fsize=%d fsum=%d P %s" % (
+                            np_, obs["disk"], obs["len"], obs["cur"], obs["ci"], obs["fsize"], obs["fsum"], obs["prims"])
+                    else:
+                        mine = "exception " + str(obs.get("reopen"))
+                    if reply != mine:
+                        self.disagree("creation crash image / reopen: " + lib.first_diff(reply, mine), reply, mine, inp)
+                elif with_meta and model2 is not None:
+                    cov.hit("create.load_compared")
+                    reply = model2.ask("load %s %s" % (hexs, lib.meta_value_str(jm, meta)))
+                    mine = "ok " + obs["summary"] if "summary" in obs else "exception " + str(obs.get("reopen"))
+                    if reply != mine:
+                        self.disagree("creation crash image with .meta / reopen: " + lib.first_diff(reply, mine), reply, mine, inp)
+            # fs-level images of the creation, straight from the directory
+            seen = set()
+            for n, when, prim, img in fsimgs:
+                cov.hit("fs_images")
+                cov.hit("fs_images.create")
+                if img in seen:
+                    continue
+                seen.add(img)
+                m, obs = lib.judge_creation_image(jm, self.scratch, img, ci, tv)
+                if m is not None:
+                    self.violate(m[0], "FileJournal(path) killed %s %s (%s journal file%s): %s"
+                                 % (when, lib.prim_str_short(prim), start, ", stored .meta" if with_meta else "", m[1]),
+                                 dict(base, fs_index=n, when=when), kind="create")
+
     # -- one sequence ------------------------------------------------------------------------------
     def walk(self, case, rng, kill_p, cont_p):
         jm, model, cov = self.jm, self.model, self.cov
@@ -360,6 +448,8 @@ class Walker(object):
                     cov.hit("walk.crashat")
                     if os.path.exists(self.path + ".tmp"):
                         cov.hit("walk.crashat_leaves_stale_tmp")
+                        if os.path.getsize(self.path + ".tmp") == 0:
+                            cov.hit("walk.crashat_leaves_empty_tmp")
                     reply = None
                     if model is not None:
                         reply = lib.model_crash_load(model, op[1], op[2], op[3])
@@ -454,7 +544,7 @@ def _shrink_disagreements(ctx, jm, model, tmp, out):
     res = []
     for d in out["disagreements"]:
         inp = d["input"]
-        if "k" not in inp:
+        if "k" not in inp or "pre" not in inp:
             res.append(d)
             continue
 
@@ -490,6 +580,9 @@ def run(ctx):
     budget = ctx.scale(24.0, 230.0)       # safety net only
     w.deadline = t0 + budget
     try:
+        # creation of the journal file (D74): kill points of the constructor on a missing / zero-length file
+        w.creation(False)
+        w.creation(True)
         # phase 0 (fast, model-free): the file-system level images of every op of every directed sequence
         for c in directed_cases():
             for v in lib.fs_check_sequence(jm, tmp, c["ops"], cov=cov, limit=2):
@@ -536,7 +629,10 @@ def run(ctx):
               ("points.settv", 30), ("points.settv_with_pending_ci", 8),
               # file-system level images
               ("fs_images", 200), ("fs_images.between_two_fs_calls_of_one_op", 100), ("fs.headdrop_calls", 20),
-              ("fs_calls.delto", 20), ("fs_calls.timer", 9), ("fs_calls.settv", 9)]
+              ("fs_calls.delto", 20), ("fs_calls.timer", 9), ("fs_calls.settv", 9),
+              # creation of the journal file
+              ("points.create", 10), ("points.create_zero_length", 2), ("points.create_torn_header", 4),
+              ("points.create_with_meta", 5), ("fs_images.create", 8), ("walk.crashat_leaves_empty_tmp", 1)]
     missed = ["%s=%d<%d" % (k, cov.get(k, 0), f) for k, f in floors if cov.get(k, 0) < f]
     if cov.get("fs.headdrop_calls_with_before_and_after", 0) != cov.get("fs.headdrop_calls", 0):
         missed.append("head-drop file-system calls without a before AND an after image: %d of %d have both"
@@ -645,7 +741,9 @@ def replay(ctx, violation):
     rp = violation.get("replay") or {}
     tmp = ctx.tmpdir()
     try:
-        if rp.get("kind") == "fs" or "fs_index" in rp:
+        if rp.get("kind") == "create":
+            m, killed = lib.replay_create(jm, tmp, rp)
+        elif rp.get("kind") == "fs" or "fs_index" in rp:
             m, killed = lib.replay_fs(jm, tmp, rp)
         else:
             m, killed = replay_crash(jm, tmp, rp)
